@@ -1351,11 +1351,15 @@ func (h *Hashgraph) ProcessSigPool() error {
 
 		valid, err := block.Verify(bs)
 		if err != nil {
+			// The signature cannot even be decoded. It will never become valid:
+			// drop it, otherwise every later pass (and Bootstrap) would abort
+			// at this same item.
 			h.logger.WithFields(logrus.Fields{
 				"index": bs.Index,
 				"msg":   err,
 			}).Error("Verifying Block signature")
-			return err
+			h.PendingSignatures.Remove(bs.Key())
+			continue
 		}
 		if !valid {
 			bytesBlock, _ := block.Marshal()
